@@ -252,3 +252,183 @@ Example c16_example_ensemble :
   /\ map (map Qred) (mpow [[1 # 2; 1 # 2]; [1 # 4; 3 # 4]] 2) = [[3 # 8; 5 # 8]; [5 # 16; 11 # 16]].
 Proof. vm_compute. split; reflexivity. Qed.
 Print Assumptions c16_example_ensemble.
+
+(* ===================================================================================================
+   Round 3: the parts of the model that were tied to the source by correspondence only are now
+   regenerated from /repo (translator/tr_spectrum.py -> Gen/MsmSpecGen.v, Gen/MsmAuxGen.v) and proved
+   equal to the model, so the theorems above apply to what the source says now.
+   =================================================================================================== *)
+From EV Require Import MsmSpecBase MsmSpecGen MsmSpecGenProofs.
+From EV Require Import MsmAuxBase MsmAuxGen MsmIO MsmAuxGenProofs.
+
+(* ===== spectrum: eigenspectrum as written =====
+   order = np.argsort(-np.real(vals)) is the model's descending order (ties keep solver order) *)
+Theorem c16_gen_argsort_is_descending_order : forall vals,
+  np_argsort (np_neg (np_real vals)) = order vals.
+Proof. exact argsort_neg_real_is_order. Qed.
+Print Assumptions c16_gen_argsort_is_descending_order.
+
+(* the post-processing statements of eigenspectrum (reorder values and columns, vecs[:, 0] /=
+   vecs[:, 0].sum(), slice to n_eigs, real parts) = eig_post, for every n_eigs that passes the guard *)
+Theorem c16_gen_post_is_model : forall k vals vecs, (2 <= k)%Z ->
+  gen_post k vals vecs = eig_post (Some k) vals vecs.
+Proof. exact gen_post_model. Qed.
+Print Assumptions c16_gen_post_is_model.
+
+(* the whole function: n_eigs guard (None -> T.shape[0]; < 2 -> ValueError), the solver call, the
+   post-processing; `run` is the trusted eigen-solver and (vals, vecs) its answer to the call the
+   source makes *)
+Theorem c16_gen_eigenspectrum_is_model : forall Mx (ops : mx_ops Mx) run T ne left maxiter tol vals vecs,
+  (forall k, gen_n_eigs ops T ne = Some k -> run (gen_solver ops T k left maxiter tol) = (vals, vecs)) ->
+  (ne = None -> (Z.of_nat (length vals) <= mx_shape0 ops T)%Z) ->
+  gen_eigenspectrum ops run T ne left maxiter tol = eig_post ne vals vecs.
+Proof. exact gen_eigenspectrum_model. Qed.
+Print Assumptions c16_gen_eigenspectrum_is_model.
+
+(* "real eigenvalues in descending order", for the generated function *)
+Theorem c16_gen_eigenspectrum_sorted : forall Mx (ops : mx_ops Mx) run T ne left maxiter tol vals vecs,
+  (forall k, gen_n_eigs ops T ne = Some k -> run (gen_solver ops T k left maxiter tol) = (vals, vecs)) ->
+  (ne = None -> (Z.of_nat (length vals) <= mx_shape0 ops T)%Z) ->
+  forall ev V, gen_eigenspectrum ops run T ne left maxiter tol = Some (ev, V) ->
+  StronglySorted desc ev /\
+  exists full, Permutation full (map re vals) /\ StronglySorted desc full /\ ev = firstn (n_take ne vals) full.
+Proof. exact gen_eigenspectrum_sorted. Qed.
+Print Assumptions c16_gen_eigenspectrum_sorted.
+
+(* the first returned vector sums to one, for the generated function *)
+Theorem c16_gen_eigenspectrum_first_sums_to_one : forall Mx (ops : mx_ops Mx) run T ne left maxiter tol vals vecs,
+  (forall k, gen_n_eigs ops T ne = Some k -> run (gen_solver ops T k left maxiter tol) = (vals, vecs)) ->
+  (ne = None -> (Z.of_nat (length vals) <= mx_shape0 ops T)%Z) ->
+  forall ev V, gen_eigenspectrum ops run T ne left maxiter tol = Some (ev, V) ->
+  exists v0 V', V = v0 :: V' /\ Builders.qsum v0 == 1.
+Proof. exact gen_eigenspectrum_first_sums_to_one. Qed.
+Print Assumptions c16_gen_eigenspectrum_first_sums_to_one.
+
+(* "leading value one whose left eigenvector is the stationary distribution", for the generated
+   function (conditional on the solver returning left eigenpairs of a stochastic matrix) *)
+Theorem c16_gen_eigenspectrum_stationary : forall Mx (ops : mx_ops Mx) run T ne left maxiter tol vals vecs,
+  (forall k, gen_n_eigs ops T ne = Some k -> run (gen_solver ops T k left maxiter tol) = (vals, vecs)) ->
+  (ne = None -> (Z.of_nat (length vals) <= mx_shape0 ops T)%Z) ->
+  forall Tm ev V, gen_eigenspectrum ops run T ne left maxiter tol = Some (ev, V) ->
+  (forall k, (k < length vals)%nat -> left_eig Tm (nth k vals c0) (nth k vecs [])) ->
+  (exists z, In z vals /\ re z == 1) ->
+  (forall z, In z vals -> re z <= 1) ->
+  (forall z, In z vals -> re z == 1 -> im z == 0) ->
+  exists pi V' ev',
+    V = pi :: V' /\ ev = hd 0 ev :: ev' /\ hd 0 ev == 1 /\
+    length pi = length Tm /\ Builders.qsum pi == 1 /\
+    forall j, (j < length Tm)%nat -> Builders.vecmat pi Tm j == nth j pi 0.
+Proof. exact gen_eigenspectrum_stationary. Qed.
+Print Assumptions c16_gen_eigenspectrum_stationary.
+
+Theorem c16_gen_n_eigs_rejects_small : forall Mx (ops : mx_ops Mx) T k, (k < 2)%Z -> gen_n_eigs ops T (Some k) = None.
+Proof. exact gen_n_eigs_rejects. Qed.
+Print Assumptions c16_gen_n_eigs_rejects_small.
+
+(* which solver: the transpose for left eigenvectors; LAPACK on the densified matrix unless the input
+   is sparse with >= 1000 rows, then ARPACK (largest real part, caller's maxiter / tol, seeded v0) *)
+Theorem c16_gen_solver_decision : forall Mx (ops : mx_ops Mx) (T : Mx) k (left : bool) maxiter tol,
+  (forall M, mx_issparse ops (mx_toarray ops M) = false) ->
+  let T' := if left then mx_T ops T else T in
+  gen_solver ops T k left maxiter tol =
+  if uses_arpack (mx_shape0 ops T') (mx_issparse ops T')
+  then CallEigs (mx_tocsr ops T') k LR maxiter tol (V0SeededUniform 0 (mx_shape0 ops T'))
+  else CallEig (if mx_issparse ops T' then mx_toarray ops T' else T').
+Proof. exact gen_solver_decision. Qed.
+Print Assumptions c16_gen_solver_decision.
+
+(* ===== implied timescales: calc_imp_times / implied_timescales as written =====
+   the eigenspectrum call: n_eigs = n_times + 1, left eigenvectors, default maxiter / tol *)
+Theorem c16_gen_imp_eig_call : forall Mx V (eig : Mx -> option Z -> bool -> Z -> Q -> V) T n_times,
+  gen_imp_eig_call eig T n_times = eig T (Some (imp_n_eigs n_times)) true eig_default_maxiter eig_default_tol.
+Proof. exact gen_imp_eig_call_model. Qed.
+Print Assumptions c16_gen_imp_eig_call.
+
+(* the formula statement `-lag_time / np.log(e_vals[1:])` is MsmReal.imp_times (over R) *)
+Theorem c16_gen_imp_formula_is_model : forall (lag : Z) (e_vals : list R),
+  gen_imp_formula lag e_vals = imp_times (IZR lag) e_vals.
+Proof. exact gen_imp_formula_model. Qed.
+Print Assumptions c16_gen_imp_formula_is_model.
+
+(* "implied timescales equal minus the lag time over the log of the corresponding eigenvalue", the
+   stationary eigenvalue dropped, no absolute value -- for the generated formula *)
+Theorem c16_gen_imp_formula_nth : forall (lag : Z) ev k, (S k < length ev)%nat ->
+  nth k (gen_imp_formula lag ev) 0%R = (- IZR lag / ln (nth (S k) ev 1))%R.
+Proof. exact gen_imp_formula_nth. Qed.
+Print Assumptions c16_gen_imp_formula_nth.
+
+(* implied_timescales: one calc_imp_times call per lag time, in order, with n_states = max + 1, the
+   model's n_times (None -> n_states div 10 + 1, capped at n_states - 1) and the caller's method /
+   sliding_window / trim *)
+Theorem c16_gen_implied_timescales_is_model : forall A Mth R (amax : A -> Z)
+    (calc : A -> Z -> Z -> Z -> Mth -> bool -> bool -> R) a lags m nt sl trim,
+  gen_implied_timescales amax calc a lags m nt sl trim =
+  map (fun t => calc a t (amax a + 1)%Z (imp_n_times (amax a + 1)%Z nt) m sl trim) lags.
+Proof. exact gen_implied_timescales_model. Qed.
+Print Assumptions c16_gen_implied_timescales_is_model.
+
+Theorem c16_imp_n_times_capped : forall ns nt, (imp_n_times ns nt <= ns - 1)%Z.
+Proof. exact imp_n_times_capped. Qed.
+Print Assumptions c16_imp_n_times_capped.
+
+(* ===== propagation: synthetic_ensemble as written ===== *)
+Theorem c16_gen_ensemble_is_model : forall sp T p0 n_steps,
+  gen_ensemble sp T p0 n_steps = ensemble T p0 n_steps.
+Proof. exact gen_ensemble_model. Qed.
+Print Assumptions c16_gen_ensemble_is_model.
+
+Theorem c16_gen_ensemble_obs_is_model : forall sp T p0 n_steps ob,
+  gen_ensemble_obs sp T p0 n_steps ob = ensemble_obs T p0 n_steps ob.
+Proof. exact gen_ensemble_obs_model. Qed.
+Print Assumptions c16_gen_ensemble_obs_is_model.
+
+(* ===== save / load: the attribute <-> file table as written =====
+   the tables read off MSM.save / MSM.load are the model's *)
+Theorem c16_gen_io_tables_are_model :
+  gen_default_fnames = default_fnames /\ gen_save_table = save_table /\ gen_load_table = load_table /\
+  gen_manifest_save = manifest_name /\ gen_manifest_load = manifest_name.
+Proof. exact gen_tables_model. Qed.
+Print Assumptions c16_gen_io_tables_are_model.
+
+Theorem c16_gen_io_tables_ok :
+  tables_ok gen_default_fnames gen_manifest_save gen_manifest_load gen_save_table gen_load_table = true.
+Proof. exact gen_tables_ok. Qed.
+Print Assumptions c16_gen_io_tables_ok.
+
+(* what tables_ok guarantees for any tables: each attribute written once and read once through the
+   same manifest key by a reader for the writer's format, every float64 kept exactly *)
+Theorem c16_io_tables_ok_sound : forall names ms ml sv ld,
+  tables_ok names ms ml sv ld = true ->
+  ms = ml /\
+  forall a, exists s l,
+    In s sv /\ In l ld /\ sv_attr s = a /\ ld_attr l = a /\
+    (forall s', In s' sv -> sv_attr s' = a -> s' = s) /\
+    (forall l', In l' ld -> ld_attr l' = a -> l' = l) /\
+    sv_key s = ld_key l /\ compatible (sv_writer s) (ld_reader l) = true /\
+    exact_writer (sv_writer s) = true /\ mode_ok (sv_writer s) (sv_mode s) = true /\
+    exists f, lookup (sv_key s) names = Some f.
+Proof. exact tables_ok_sound. Qed.
+Print Assumptions c16_io_tables_ok_sound.
+
+(* "a serialisation that loses precision": the probabilities are written with >= 17 significant digits *)
+Theorem c16_tprobs_precision : forall s, In s gen_save_table -> sv_attr s = A_tprobs_ ->
+  exists p, sv_writer s = W_mmwrite (Some p) /\ (17 <= p)%Z.
+Proof. exact tprobs_precision. Qed.
+Print Assumptions c16_tprobs_precision.
+
+(* non-vacuity: the generated eigenspectrum on the 4-cycle (dense, all eigenvalues) *)
+Example c16_example_gen_spectrum :
+  option_map (fun r => (map Qred (fst r), Builders.mat_red (snd r)))
+    (gen_eigenspectrum lmx_ops (fun _ => (cycle4_vals, cycle4_vecs)) (true, cycle4) None true 100000 (1 # 10))
+  = Some ([1; 0; 0; -1], [[1 # 4; 1 # 4; 1 # 4; 1 # 4]; [1; 0; -1; 0]; [1; 0; -1; 0]; [2; -2; 2; -2]])
+  /\ is_call_eig (gen_solver lmx_ops (true, cycle4) 4 true 100000 (1 # 10)) = true
+  /\ (forall M, mx_issparse lmx_ops (mx_toarray lmx_ops M) = false).
+Proof. split; [vm_compute; reflexivity|split; [vm_compute; reflexivity|intro M; reflexivity]]. Qed.
+Print Assumptions c16_example_gen_spectrum.
+
+Example c16_example_gen_ensemble :
+  gen_ensemble false [[1 # 2; 1 # 2]; [1 # 4; 3 # 4]] [1; 0] 3 =
+    Some ([3 # 8; 5 # 8], [[1; 0]; [1 # 2; 1 # 2]; [3 # 8; 5 # 8]])
+  /\ gen_ensemble true [[1 # 2; 1 # 2]; [1 # 4; 3 # 4]] [1; 0; 0] 2 = None.
+Proof. vm_compute. split; reflexivity. Qed.
+Print Assumptions c16_example_gen_ensemble.
